@@ -213,7 +213,15 @@ pub fn kernel_openat2(rootfd: i32, path: &str, flags: i64, resolve: u64, keep: &
 
 pub fn exec_call(ctx: &mut Ctx, idx: usize, c: &Value) -> Value {
     let mut keep: Option<OwnedFd> = None;
+    // optional: perform the call with another effective (and thus filesystem) uid
+    let euid = c.get("euid").and_then(|v| v.as_u64());
+    if let Some(u) = euid {
+        unsafe { libc::syscall(libc::SYS_setresuid, -1i64, u as i64, -1i64) };
+    }
     let r = catch_unwind(AssertUnwindSafe(|| exec_call_inner(ctx, idx, c, &mut keep)));
+    if euid.is_some() {
+        unsafe { libc::syscall(libc::SYS_setresuid, -1i64, 0i64, -1i64) };
+    }
     while ctx.kept.len() <= idx {
         ctx.kept.push(None);
     }
